@@ -5,7 +5,8 @@
 //	                                                        then os.Exit(77) without closing (process crash);
 //	                                                        -crashat P exits instead before the P-th mutating
 //	                                                        file operation (FaultFS), 0 = off
-//	raftwal recover -dir D -sched S.json -out R.json        reopen DB + storages and dump
+//	raftwal recover -dir D -sched S.json -out R.json        reopen DB + storages and dump (hard state, snapshot,
+//	                                                        first/last index, entries, raft entries on disk)
 package main
 
 import (
@@ -179,6 +180,13 @@ func work(dir, sched, trace string, upto int) {
 			emit(map[string]any{"e": "RaftHSCall", "g": op.G, "term": op.Term, "vote": op.Vote, "commit": op.Commit})
 			err := stores[op.G].SetHardState(myraft.HardState{Term: op.Term, Vote: op.Vote, Commit: op.Commit})
 			emit(map[string]any{"e": "RaftHSRet", "g": op.G, "term": op.Term, "vote": op.Vote, "commit": op.Commit, "ok": err == nil, "err": es(err), "seg": db.WAL().ActiveSegment()})
+		case "RaftSnap":
+			snap := myraft.Snapshot{Data: []byte(fmt.Sprintf("snap-%d-%d", op.Idx, op.Term))}
+			snap.Metadata.Index, snap.Metadata.Term = op.Idx, op.Term
+			snap.Metadata.ConfState.Voters = []uint64{1}
+			emit(map[string]any{"e": "RaftSnapCall", "g": op.G, "idx": op.Idx, "term": op.Term})
+			err := stores[op.G].ApplySnapshot(snap)
+			emit(map[string]any{"e": "RaftSnapRet", "g": op.G, "idx": op.Idx, "term": op.Term, "ok": err == nil, "err": es(err), "seg": db.WAL().ActiveSegment()})
 		case "RaftCompact":
 			err := stores[op.G].MaybeCompact(op.Idx+1, 1)
 			emit(map[string]any{"e": "RaftCompact", "g": op.G, "idx": op.Idx, "ok": err == nil, "err": es(err)})
@@ -249,7 +257,7 @@ func recoverCmd(dir, sched, outp string) {
 	})
 	var groups []map[string]any
 	for _, g := range s.Groups {
-		gr := map[string]any{"g": g, "open": true, "term": 0, "vote": 0, "commit": 0, "first": 0, "last": 0, "ents": []Ent{}, "disk": append([]Ent{}, disk[g]...)}
+		gr := map[string]any{"g": g, "open": true, "term": 0, "vote": 0, "commit": 0, "first": 0, "last": 0, "si": 0, "st": 0, "ents": []Ent{}, "disk": append([]Ent{}, disk[g]...)}
 		var ws *engine.WALStorage
 		var err error
 		func() {
@@ -270,6 +278,9 @@ func recoverCmd(dir, sched, outp string) {
 		first, _ := ws.FirstIndex()
 		last, _ := ws.LastIndex()
 		gr["term"], gr["vote"], gr["commit"], gr["first"], gr["last"] = hs.Term, hs.Vote, hs.Commit, first, last
+		if sn, err := ws.Snapshot(); err == nil {
+			gr["si"], gr["st"] = sn.Metadata.Index, sn.Metadata.Term
+		}
 		ents := []Ent{}
 		if last >= first {
 			es, err := ws.Entries(first, last+1, 1<<30)
